@@ -95,6 +95,18 @@ def timeTell (vf : VF) : Float :=
     t + Float.ofInt (vf.pcm_offset - p) / Float.ofInt vf.infos[link]!.rate
   else Float.ofInt vf.pcm_offset / Float.ofInt vf.infos[0]!.rate
 
+/-- the argument of a time seek: milliseconds, or the exact duration ("end"), the double just below / above it ("endm" / "endp"), or "nan" -/
+def secsOf (vf : VF) (a : Option String) (ms : Int) : Float :=
+  match a with
+  | some "end" => timeTotal vf (-1)
+  | some "endm" => Float.ofBits ((timeTotal vf (-1)).toBits - 1)
+  | some "endp" => Float.ofBits ((timeTotal vf (-1)).toBits + 1)
+  | some "nan" => 0.0 / 0.0
+  | _ => Float.ofInt ms / 1000.0
+
+/-- the range check the lapped time seeks make up front -/
+def inTime (secs : Float) (v : VF) : Bool := !(secs < 0) && (secs < timeTotal v (-1))
+
 def seekLine (op : String) (rc : Int) (vf : VF) : String :=
   s!"{op} rc={ovname rc} tell={pcmTell vf} state={vf.ready} link={if vf.ready ≥ STREAMSET then vf.current_link else -1}"
 
@@ -144,6 +156,7 @@ def step (s : St) (toks : List String) : St × List String :=
       else
         let vf := sl.vf
         let arg (i : Nat) : Int := (args[i]?.bind String.toInt?).getD 0
+        let secs : Float := secsOf vf args[0]? (arg 0)
         let run (m : M Int) (fmt : Int → VF → String) : St × List String :=
           let (rc, vf1) := m.run vf
           put { sl with vf := vf1 } [fmt rc vf1]
@@ -200,10 +213,10 @@ def step (s : St) (toks : List String) : St × List String :=
         | "rawseeklap" => run (lapGuard (fun v => decide (0 ≤ arg 0 ∧ arg 0 ≤ v.end_)) (seekLap ph (rawSeek ph (arg 0)))) (seekLine op)
         | "pcmseekpagelap" => run (lapGuard (fun v => decide (0 ≤ arg 0 ∧ arg 0 ≤ pcmTotal v (-1))) (seekLap ph (pcmSeekPage ph (rawSeek ph) (arg 0)))) (seekLine op)
         | "pcmseeklap" => run (lapGuard (fun v => decide (0 ≤ arg 0 ∧ arg 0 ≤ pcmTotal v (-1))) (seekLap ph (pcmSeek ph (rawSeek ph) (arg 0)))) (seekLine op)
-        | "timeseek" => run (timeSeek (pcmSeek ph (rawSeek ph)) (Float.ofInt (arg 0) / 1000.0)) (seekLine op)
-        | "timeseekpage" => run (timeSeek (pcmSeekPage ph (rawSeek ph)) (Float.ofInt (arg 0) / 1000.0)) (seekLine op)
-        | "timeseeklap" => run (lapGuard (fun v => !(Float.ofInt (arg 0) / 1000.0 < 0) && (Float.ofInt (arg 0) / 1000.0 < timeTotal v (-1))) (seekLap ph (timeSeek (pcmSeek ph (rawSeek ph)) (Float.ofInt (arg 0) / 1000.0)))) (seekLine op)
-        | "timeseekpagelap" => run (lapGuard (fun v => !(Float.ofInt (arg 0) / 1000.0 < 0) && (Float.ofInt (arg 0) / 1000.0 < timeTotal v (-1))) (seekLap ph (timeSeek (pcmSeekPage ph (rawSeek ph)) (Float.ofInt (arg 0) / 1000.0)))) (seekLine op)
+        | "timeseek" => run (timeSeek (pcmSeek ph (rawSeek ph)) secs) (seekLine op)
+        | "timeseekpage" => run (timeSeek (pcmSeekPage ph (rawSeek ph)) secs) (seekLine op)
+        | "timeseeklap" => run (lapGuard (inTime secs) (seekLap ph (timeSeek (pcmSeek ph (rawSeek ph)) secs))) (seekLine op)
+        | "timeseekpagelap" => run (lapGuard (inTime secs) (seekLap ph (timeSeek (pcmSeekPage ph (rawSeek ph)) secs))) (seekLine op)
         | "halfrate" => run (halfrate ph (arg 0 ≠ 0)) (fun rc v => s!"halfrate rc={ovname rc} p={v.hs} tell={pcmTell v}")
         | "crosslap" =>
             let k2 := (arg 0).toNat % 4
